@@ -40,6 +40,8 @@ CONSTANTS MaxTx,      \* behaviour length
           Prices,     \* e.g. {1, 2, 3}
           KnownRefund,\* TRUE: search past the known findings (refund accounting; legacy gas of failed staking transactions before YouV4)
           Versions,   \* protocol versions to run under, subset of 1..5
+          RlpKeepsCaches, \* TRUE: the code has the deviation DecodeRLPKeepsCaches (see the signature part); set by the check from
+                      \* the replay of the stored witness, so that a repair or a revert of the repair needs no edit here
           AllFull,    \* TRUE: every class combination under every version; FALSE: under versions < 5 only ClsOK
           GenMode     \* "none" | "leaf"
 
@@ -162,11 +164,13 @@ RecoverUnder(m, sg) == IF sg = "home" THEN Recover(m) ELSE IF m = "netid_v" THEN
 \* The object also caches its HASH (Transaction.Hash), and it can be RE-USED: another transaction ("B": a plain transfer signed by
 \* the second key) is decoded into the same value after the caches were filled.  As coded: UnmarshalJSON replaces the whole
 \* object (`*tx = Transaction{data: dec}`: caches gone); DecodeRLP -- reached through rlp.DecodeBytes(b, &obj) ("rlp") or called
-\* on a stream ("rlpstream") -- replaces tx.data only and KEEPS the cached hash and sender (DecodeRLPKeepsCaches, a named
-\* deviation: no production caller decodes into a used Transaction).  content: whose fields the object holds now ("A": the case,
+\* on a stream ("rlpstream") -- does the same since /repo 3cbc2eb; before that it replaced tx.data only and KEPT the cached hash
+\* and sender (named deviation DecodeRLPKeepsCaches, modelled when the constant RlpKeepsCaches is TRUE).  A decode that FAILS
+\* ("badjson", "badrlp": a damaged encoding of B) returns an error and leaves the value as it was.  content: whose fields the object holds now ("A": the case,
 \* "B"); via: how they got there; hashc: the cached hash ("none" / "A" / "B").
 Decoders == {"json", "rlp", "rlpstream"}
-Ops == Signers \cup {"hash", "apply"} \cup Decoders
+BadDecoders == {"badjson", "badrlp"}
+Ops == Signers \cup {"hash", "apply"} \cup Decoders \cup BadDecoders
 SigOff == [on |-> FALSE, cls |-> C(1, "eq", "ample", "zero", "acct", "none", 1), mut |-> "none", cache |-> <<>>, res |-> <<>>,
            content |-> "A", via |-> "new", hashc |-> "none"]
 NewObject(c, m) == [SigOff EXCEPT !.on = TRUE, !.cls = c, !.mut = m]                         \* decoded from RLP into a fresh value: no cache
@@ -175,6 +179,7 @@ FreshAns(m, content, op) ==
    CASE op = "hash" -> content
      [] op \in {"home", "apply"} -> IF content = "A" THEN RecoverUnder(m, "home") ELSE "B"    \* apply: who is charged (AsMessage -> Sender)
      [] op = "foreign" -> IF content = "A" THEN RecoverUnder(m, "foreign") ELSE "err"
+     [] op \in BadDecoders -> "err"
      [] OTHER -> "ok"
 ResolveAs(s, sg, op) ==
    LET hit == s.cache # <<>> /\ s.cache[1].signer = sg                                   \* sigCache.signer.Equal(signer)
@@ -188,10 +193,13 @@ HashOn(s) == LET ans == IF s.hashc # "none" THEN s.hashc ELSE s.content IN
              [s EXCEPT !.res = Append(@, [signer |-> "hash", ans |-> ans, content |-> s.content, via |-> s.via]), !.hashc = ans]
 DecodeInto(s, dec) ==
    LET t == [s EXCEPT !.content = "B", !.via = dec, !.res = Append(@, [signer |-> dec, ans |-> "ok", content |-> "B", via |-> dec])] IN
-   IF dec = "json" THEN [t EXCEPT !.cache = <<>>, !.hashc = "none"] ELSE t               \* DecodeRLPKeepsCaches
+   IF dec = "json" \/ ~RlpKeepsCaches THEN [t EXCEPT !.cache = <<>>, !.hashc = "none"] ELSE t     \* ELSE: DecodeRLPKeepsCaches
+\* a failed decode: error, the value (fields and caches) unchanged
+DecodeBad(s, dec) == [s EXCEPT !.res = Append(@, [signer |-> dec, ans |-> "err", content |-> s.content, via |-> s.via])]
 OpOn(s, op) == CASE op \in Signers -> ResolveOn(s, op)
                  [] op = "apply" -> ResolveAs(s, "home", "apply")
                  [] op = "hash" -> HashOn(s)
+                 [] op \in BadDecoders -> DecodeBad(s, op)
                  [] OTHER -> DecodeInto(s, op)
 SigCases == IF Alphabet = "sig" THEN { c \in SigCls : c.price = 1 } ELSE {}
 ObjCases == IF Alphabet = "obj" THEN { c \in SigCls : c.price = 1 /\ c.val = "zero" /\ c.tp \in { <<"acct", "none">>, <<"create", "ok">>,
@@ -208,7 +216,8 @@ SigNext == /\ \/ ~sig.on /\ \E c \in SigCases, m \in SeqMutations : sig' = NewOb
 \* is charged when it is applied) is the answer a fresh object with these fields gives
 CacheTransparent ==
    \A i \in DOMAIN sig.res : \/ sig.res[i].ans = FreshAns(sig.mut, sig.res[i].content, sig.res[i].signer)
-                              \/ (KnownRefund /\ sig.res[i].via \in {"rlp", "rlpstream"})     \* known: DecodeRLPKeepsCaches
+                              \/ (RlpKeepsCaches /\ sig.res[i].via \in {"rlp", "rlpstream"})  \* the deviation, when the code has it, is
+                                                                                               \* reported from the real code by the monitor
 SenderAuthenticSeq ==
    \A i \in DOMAIN sig.res : sig.res[i].content = "A" /\ sig.res[i].signer \in Signers =>
                                  ((sig.res[i].ans = "same") <=> (sig.res[i].signer = "home" /\ sig.mut = "none"))
